@@ -181,6 +181,33 @@ def gen_program(seed, nloggers=3, nstmts=14):
             ids.item += 4
             st["cuts"] = [2, 4] if form == "named" else []
             lg["stmts"].append(st)
+        # (h) scale: messages of 4 KiB and more, callables streamed after that much text, many items
+        if lg["k"] < 2:
+            def mk(kind, v=None):
+                it = {"kind": kind, "v": ids.item if v is None else v, "id": ids.item}
+                ids.item += 1
+                return it
+            n1 = rng.choice([4096, 4097, 5000, 20000, 70000])
+            st = _stmt(rng, ids, rng.randrange(3, 6), "expr", 0)
+            st["items"] = [mk("lazy"), mk("longstr", ("z", n1)), mk("lazy"), mk("obj"), mk("lazyp"), mk("lit", "end")]
+            lg["stmts"].append(st)
+            st = _stmt(rng, ids, rng.randrange(3, 6), "named", 0)
+            st["items"] = [mk("longstr", ("y", 4095)), mk("lazy"), mk("lazy"), mk("obj"), mk("fn"), mk("chr", ":")]
+            st["cuts"] = [1, 3]
+            lg["stmts"].append(st)
+            st = _stmt(rng, ids, rng.randrange(3, 6), rng.choice(["expr", "named"]), 0)
+            st["items"] = []
+            for j in range(40):
+                st["items"].append(mk("longstr", ("w", rng.choice([15, 16, 17, 255, 256, 257, 1500]))) if j % 8 == 3
+                                   else mk(rng.choice(["lazy", "int", "chr", "obj", "lazyp"]),
+                                           {"int": 7, "chr": "x"}.get(None)))
+            for it in st["items"]:
+                if it["kind"] == "int":
+                    it["v"] = 123456
+                elif it["kind"] == "chr":
+                    it["v"] = ":"
+            st["cuts"] = [10, 30] if st["form"] == "named" else []
+            lg["stmts"].append(st)
     return {"seed": seed, "loggers": loggers}
 
 
@@ -210,6 +237,8 @@ def item_text(it):
         return "G%d" % it["id"]
     if k == "hexint":
         return "%x" % v
+    if k == "longstr":
+        return v[0] * v[1]
     if k == "failobj":
         return "F%d" % it["id"]
     return "O%d" % it["id"]
@@ -237,6 +266,8 @@ def item_cpp(it):
         return '[] { ev("LAZY %d"); %s return std::string("G%d"); }' % (it["id"], it["_code"], it["id"])
     if k == "hexint":
         return "std::hex << %d" % v
+    if k == "longstr":
+        return "std::string(%d, '%s')" % (v[1], v[0])
     if k == "failobj":
         return "Failing{%d}" % it["id"]
     return "Counting{%d}" % it["id"]
@@ -315,6 +346,8 @@ def source(prog):
       "#include <type_traits>")
     A("using nitro::log::severity_level;")
     A("static std::string hexs(const std::string& s) { static const char* d = \"0123456789abcdef\"; "
+      "if (s.size() > 400) { unsigned long long h = 1469598103934665603ULL; for (unsigned char c : s) { h ^= c; "
+      "h *= 1099511628211ULL; } char b[64]; std::snprintf(b, sizeof b, \"h%zu:%016llx\", s.size(), h); return b; } "
       "std::string r = \"x\"; for (unsigned char c : s) { r.push_back(d[c >> 4]); r.push_back(d[c & 15]); } return r; }")
     A("static void ev(const std::string& s) { std::fputs(s.c_str(), stdout); std::fputc('\\n', stdout); }")
     A("struct Counting { int id; };")
@@ -406,12 +439,23 @@ def expected_events(lg, st, minsev, thr, parent=None, how=None):
         if it["kind"] == "failobj":
             failed = True     # the buffer is in a failed state: later insertions leave no text
     tag = st["tag"] or ""
-    hx = lambda s: "x" + s.encode("latin-1").hex()
+    hx = hexs
     rec = "<%d|%d|%s|%s>" % (lg["k"], sev, tag, msg)
     out = ["FMT %d %d %s %s" % (lg["k"], sev, hx(tag), hx(msg))]
     for s in lg["sinks"]:
         out.append("SINK %s %d %s" % (s, sev, hx(rec)))
     return lazy, out
+
+
+def hexs(s):
+    """the event log's encoding of a string: hex, or length and FNV-1a digest beyond 400 bytes"""
+    b = s.encode("latin-1")
+    if len(b) > 400:
+        h = 1469598103934665603
+        for c in b:
+            h = ((h ^ c) * 1099511628211) & 0xffffffffffffffff
+        return "h%d:%016x" % (len(b), h)
+    return "x" + b.hex()
 
 
 def item_owner(prog):
